@@ -115,6 +115,27 @@ pub fn run_c04(out: &mut Out, tier: &str, seed: u64) {
         let text = gen_text(&bshape, &mut rng, (i % 3) as u8, 0);
         cmp::<Borrowed>(out, "Borrowed", &text);
     }
+    // borrowed strings behind serde's buffering containers
+    let tag = |vs: &[&'static str]| Shape::Enum(vs.iter().map(|v| (*v, None)).collect());
+    let ub = Shape::Any;
+    let ib = Shape::Struct(vec![("t", tag(&["A", "B"]), false), ("x", Shape::Str, true), ("y", Shape::Int { signed: true, bits: 32 }, true)]);
+    let ab = Shape::Struct(vec![("t", tag(&["A", "B"]), false), ("c", Shape::Str, true)]);
+    let ab2 = Shape::Struct(vec![("c", Shape::Str, true), ("t", tag(&["A", "B"]), false)]);
+    let fb = Shape::Struct(vec![("id", Shape::Int { signed: false, bits: 32 }, false), ("s", Shape::Str, false), ("n", Shape::Opt(Box::new(Shape::Int { signed: true, bits: 8 })), true)]);
+    let rb = Shape::Struct(vec![("a", Shape::Str, false)]);
+    for i in 0..per {
+        let mode = (i % 3) as u8;
+        let text = gen_text(if i % 2 == 0 { &Shape::Str } else { &ub }, &mut rng, mode, 0);
+        cmp::<UntaggedB>(out, "UntaggedB", &text);
+        let text = gen_text(&rb, &mut rng, mode, 0);
+        cmp::<UntaggedB>(out, "UntaggedB", &text);
+        let text = gen_text(&ib, &mut rng, mode, 0);
+        cmp::<InternalB>(out, "InternalB", &text);
+        let text = gen_text(if i % 2 == 0 { &ab } else { &ab2 }, &mut rng, mode, 0);
+        cmp::<AdjacentB>(out, "AdjacentB", &text);
+        let text = gen_text(&fb, &mut rng, mode, 0);
+        cmp::<FlatB>(out, "FlatB", &text);
+    }
 }
 
 // ---------------------------------------------------------------- C19
